@@ -2,6 +2,8 @@
 
 from __future__ import annotations
 
+import ast
+
 from ..model import Program
 from ..report import Report
 from .breaker_flow import ENTRY_POINTS, flow, FlowResult
@@ -79,6 +81,25 @@ def run(rep: Report, prog: Program, tier: str) -> None:
             else:
                 rep.ok("R8.1")
     rep.floor("R8.1", 100)
+
+    rep.rule("R8.2", "the library's own code between admission and settlement cannot raise: the built-in classifier the no-retry handlers call (default_classifier, reached through classify_for_breaker before record_failure) is total (= C19 R19.1 for that closure), and the entry points touch the user's operation only by calling it (no attribute access such as func.__name__ that may raise for partials / callables without the attribute)")
+    from .c19 import totality
+
+    totality(rep, "R8.2", prog, roots=["redress.classify:default_classifier"], min_ops=8)
+    for q in ENTRY_POINTS:
+        fi = prog.func(q)
+        todo = [fi] + [m for m in fi.cls.methods.values() if m.name.startswith("_") and not m.name.startswith("__")] if fi.cls is not None else [fi]
+        for fn in todo:
+            pn = [a.arg for a in fn.params() if a.arg == "func"]
+            if not pn:
+                continue
+            rep.instance("R8.2", f"{fn.qual}|operation-touched-only-by-call")
+            bad = [n for n in prog._own_nodes(fn.node) if isinstance(n, ast.Attribute) and isinstance(n.value, ast.Name) and n.value.id == "func" and isinstance(n.ctx, ast.Load)]
+            if bad:
+                rep.fail("R8.2", f"{fn.qual}|attribute-of-operation|{bad[0].attr}", f"{fn.qual} reads `func.{bad[0].attr}` of the user's operation: for a functools.partial / callable object without that attribute this raises AttributeError inside the admitted region and the breaker is never told", where=fn.where(bad[0]), function=fn.qual)
+            else:
+                rep.ok("R8.2")
+    rep.floor("R8.2", 12)
     for k, n in (("allow", 2), ("record", 3), ("operation", 4), ("retry", 4)):
         if len(F.client.sites[k]) < n:
             from ..model import AnalysisError
